@@ -25,6 +25,19 @@ def lname(s):
     return s.lower() if isinstance(s, str) else s
 
 
+import re as _re
+TRACER = _re.compile(r"z[qms]\d+x\d+w\d+")
+
+
+def docwords(doc):
+    """Tracer tokens of a doc comment (list of lines): body tokens (zq...) in order, followed by
+    the *sorted* metadata tokens (zm... values, zs... summary): metadata has no order."""
+    out = []
+    for line in doc or []:
+        out.extend(TRACER.findall(line))
+    return [t for t in out if t[1] == "q"] + sorted(t for t in out if t[1] != "q")
+
+
 def squash(s):
     """Lower-case and remove blanks outside character literals (canonical form of expressions)."""
     if s is None:
@@ -87,6 +100,7 @@ def canon_var(decl, ent, scope_default="public", in_type=False):
         "dim": squash(dim), "intent": decl.get("intent") or "",
         "initial": squash(ent.get("init")), "points": bool(ent.get("points")),
         "permission": perm,
+        "doctr": docwords(next((e.get("doc") for e in decl["ents"] if e.get("doc")), None)),
     })
     return d
 
@@ -135,7 +149,7 @@ def canon_proc(p, scope_default="public", in_interface=False):
         "kind_": p["k"], "name": p["name"].lower(), "args": argrecs,
         "prefix": sorted(x.lower() for x in p.get("prefix", [])),
         "bind": canon_bind(p.get("bind")), "retvar": ret,
-        "permission": access or scope_default,
+        "permission": access or scope_default, "doctr": docwords(p.get("doc")),
     }
     d.update(canon_scope(p, "public", skip_arg_ifaces=set(iface_args), locals_override=locals_))
     return d
@@ -160,12 +174,12 @@ def canon_type(t, scope_default="public"):
             binds.append({"name": squash(b["name"]), "generic": True, "deferred": False,
                           "targets": sorted(x.lower() for x in b["targets"]),
                           "iface": None, "attrs": [],
-                          "permission": b.get("access") or bind_default})
+                          "permission": b.get("access") or bind_default, "doctr": docwords(b.get("doc"))})
         else:
             binds.append({"name": b["name"].lower(), "generic": False, "deferred": bool(b.get("deferred")),
                           "targets": [(b.get("target") or b["name"]).lower()],
                           "iface": lname(b.get("iface")), "attrs": sorted(squash(a) for a in b.get("attrs", [])),
-                          "permission": b.get("access") or bind_default})
+                          "permission": b.get("access") or bind_default, "doctr": docwords(b.get("doc"))})
     attrs = []
     if t.get("abstract"):
         attrs.append("abstract")
@@ -177,7 +191,7 @@ def canon_type(t, scope_default="public"):
         "components": sorted(comps, key=lambda v: v["name"]),
         "binds": sorted(binds, key=lambda b: b["name"]),
         "finals": sorted(x.lower() for x in t.get("finals", [])),
-        "permission": t.get("access") or scope_default,
+        "permission": t.get("access") or scope_default, "doctr": docwords(t.get("doc")),
     }
 
 
@@ -249,7 +263,7 @@ def canon_scope(u, scope_default, skip_arg_ifaces=(), locals_override=None):
                 "kind_": "interface", "name": squash(i["name"]),
                 "modprocs": sorted(x.lower() for x in i.get("modprocs", [])),
                 "bodies": sorted((canon_proc(b, perm, True) for b in i.get("bodies", [])), key=lambda p: p["name"]),
-                "permission": perm,
+                "permission": perm, "doctr": docwords(i.get("doc")),
             })
         elif i["form"] == "abstract":
             for b in i["bodies"]:
@@ -268,9 +282,11 @@ def canon_scope(u, scope_default, skip_arg_ifaces=(), locals_override=None):
     for c in decls:
         if c["d"] == "common":
             for name, vars_ in c["blocks"]:
-                commons.append({"name": (name or "").lower(), "vars": [v.lower() for v in vars_]})
+                commons.append({"name": (name or "").lower(), "vars": [v.lower() for v in vars_],
+                                "doctr": docwords(c.get("doc"))})
     d["commons"] = sorted(commons, key=lambda c: (c["name"], c["vars"]))
-    d["namelists"] = sorted(({"name": n["name"].lower(), "vars": [v.lower() for v in n["vars"]]}
+    d["namelists"] = sorted(({"name": n["name"].lower(), "vars": [v.lower() for v in n["vars"]],
+                              "doctr": docwords(n.get("doc"))}
                              for n in decls if n["d"] == "namelist"), key=lambda n: n["name"])
     d["procs"] = sorted((canon_proc(p, scope_default) for p in u.get("procs", []) if p["k"] in ("subroutine", "function")),
                         key=lambda p: p["name"])
@@ -284,7 +300,7 @@ def canon_unit(u):
     k = u["k"]
     if k in ("subroutine", "function"):
         return canon_proc(u, "public")
-    d = {"kind_": k, "name": (u.get("name") or "").lower()}
+    d = {"kind_": k, "name": (u.get("name") or "").lower(), "doctr": docwords(u.get("doc"))}
     if k == "module":
         default = u.get("default_access") or "public"
         d.update(canon_scope(u, default))
